@@ -328,13 +328,15 @@ def obligations(tier: str) -> List[dict]:
                 newtop=False, markers=True, i0_op=ops[0], i1_op=ops[1])
         for ops in OPS2:
             for r0 in range(len(RC_ROLES)):
-                add('h_reconfigure', 'reconfigure', 400,
-                    ['new-top'] if ops == (1, 1) else [], n=3,
-                    key='canonical', newtop=True, markers=True,
-                    i0_op=ops[0], i1_op=ops[1], i0_r=r0)
-                add('h_newtop_encode', 'encode new top', 400,
-                    ['new-top'] if ops == (1, 1) else [], n=3, i0_op=ops[0],
-                    i1_op=ops[1], i0_r=r0)
+                if r0 < 2:
+                    add('h_reconfigure', 'reconfigure', 400,
+                        ['new-top'] if ops == (1, 1) else [], n=3,
+                        key='canonical', newtop=True, markers=True,
+                        i0_op=ops[0], i1_op=ops[1], i0_r=r0)
+                if r0 == 1:   # (C03 runs the same harness for all roles)
+                    add('h_newtop_encode', 'encode new top', 400,
+                        ['new-top'] if ops == (1, 1) else [], n=3,
+                        i0_op=ops[0], i1_op=ops[1], i0_r=r0)
         add('h_key_leaf', 'key leaf', 300, ['numeric-suffix'], maxlen=4,
             model='default')
     else:
